@@ -64,6 +64,11 @@ TAml ==
           /\ Judge("C08", E.tree.t \in {"Int", "Zero", "One"} =>
                      LET v == IF E.tree.t = "Int" THEN IntBytes(E.tree) ELSE IF E.tree.t = "One" THEN One(8) ELSE Zeros(8) IN
                      b = IntEnc(v) /\ IntDec(b, 0).ok /\ IntDec(b, 0).v = v /\ IntDec(b, 0).n = Len(b), AInfo("integer"))
+          \* integers embedded as operands: the BufferSize of a data buffer is the integer constant of its length
+          /\ Judge("C08", E.tree.t \in {"BufferFill", "BufferData"} =>
+                     LET n == IF E.tree.t = "BufferFill" THEN E.tree.n ELSE Len(E.tree.d)
+                         d == PkgDec(b, 1) sz == IntDec(b, 1 + d.k) IN
+                     d.ok /\ sz.ok /\ sz.v = IntOfNat(n) /\ Slice(b, 1 + d.k, sz.n - 1 - d.k) = IntEnc(IntOfNat(n)), AInfo("buffer_size_operand"))
           /\ Judge("C09", "path" \in DOMAIN E.tree /\ E.tree.t # "ScopeRaw" /\ E.tree.t \in {"Name", "Device", "Scope", "Method", "Mutex", "OpRegion", "Field", "PowerResource", "MethodCall", "Acquire", "Release"} =>
                      LET pre == CASE E.tree.t \in {"Device", "Field", "PowerResource"} -> 2 + PkgDec(b, 2).k
                                   [] E.tree.t \in {"Scope", "Method"} -> 1 + PkgDec(b, 1).k
@@ -126,8 +131,9 @@ EisaOk(s, out) == /\ out = IntEnc(W(EisaCompress(s), 8))
                   /\ LET d == IntDec(out, 0) IN d.ok /\ EisaDecompress(SubSeq(d.v, 1, 4)) = EisaCanon(s)
 UuidOk(s, out) == /\ out = <<17>> \o PkgIncl(18) \o <<10, 16>> \o UuidBytes(s)
                   /\ Len(out) = 20 /\ UuidString(From(out, 4)) = UuidCanon(s)
-EisaMalformed(s) == Len(s) # 7 \/ \E i \in 4..7 : HexVal(s[i]) < 0
-UuidMalformed(s) == ~UuidValid(s)
+\* wrong length (in bytes or in characters), or a non-hex digit
+EisaMalformed(s) == Len(s) # 7 \/ CharLen(s) # 7 \/ \E i \in 4..7 : HexVal(s[i]) < 0
+UuidMalformed(s) == ~UuidValid(s) \/ CharLen(s) # 36
 TStrs ==
   /\ E.ev = "strs"
   /\ LET n == Len(E.strs)
